@@ -1,2 +1,4 @@
 pub mod grammar;
 pub mod pos;
+pub mod fold;
+pub mod core_schema;
